@@ -54,6 +54,7 @@ type output struct {
 	Sites       []siteInfo `json:"sites"`
 	Vars        []varInfo  `json:"vars"`
 	Unsupported []string   `json:"unsupported"` // sync / channel constructs found in non-test code
+	Stmts       int        `json:"stmts"`       // T-points (statement boundaries)
 	SyncShims   int        `json:"sync_shims"`  // Lock / Unlock / Once.Do statements bracketed by CritEnter / CritExit
 	Files       int        `json:"files"`
 	Funcs       int        `json:"funcs"`
@@ -213,6 +214,15 @@ func (in *instr) file(p *packages.Package, f *ast.File, name string) error {
 		}
 		return "<init>"
 	}
+	insideFunc := func() bool {
+		for i := len(stack) - 1; i >= 0; i-- {
+			switch stack[i].(type) {
+			case *ast.FuncDecl, *ast.FuncLit:
+				return true
+			}
+		}
+		return false
+	}
 	// enclosingListStmt: innermost statement on the stack that is in a list.
 	enclosingListStmt := func() ast.Stmt {
 		for i := len(stack) - 1; i >= 0; i-- {
@@ -284,6 +294,18 @@ func (in *instr) file(p *packages.Package, f *ast.File, name string) error {
 			return true
 		}
 		stack = append(stack, n)
+		if st, ok := n.(ast.Stmt); ok && inList[st] && insideFunc() {
+			switch st.(type) {
+			case *ast.EmptyStmt, *ast.BranchStmt, *ast.LabeledStmt, *ast.DeclStmt, *ast.CaseClause, *ast.CommClause:
+			default:
+				// T-point: a place where the scheduler may switch tasks between two statements
+				// (not counted as a step; a no-op outside scheduled runs)
+				id := in.site("stmt", p, funcName(), st.Pos(), "")
+				edits = append(edits, edit{start: off(st.Pos()), end: off(st.Pos()), text: fmt.Sprintf("zzsimrt.T(%d); ", id), prio: 4})
+				in.out.Stmts++
+				usedRT = true
+			}
+		}
 		switch x := n.(type) {
 		case *ast.FuncDecl:
 			if x.Body != nil {
@@ -482,6 +504,15 @@ func (in *instr) file(p *packages.Package, f *ast.File, name string) error {
 				text: fmt.Sprintf("zzsimrt.S(%d, %d, %d); ", sid, vid, wi), prio: 2})
 			in.out.SPoints++
 			usedRT = true
+			if ds, isDefer := ls.(*ast.DeferStmt); isDefer {
+				// the deferred call touches the variable when the function returns, not here:
+				// a second point, deferred just before it, runs right after it (last in, first
+				// out) - the moment at which what the call released may be taken by another task
+				sid2 := in.site("svar", p, funcName()+".deferred", ds.Pos(), in.out.Vars[vid-1].Name)
+				edits = append(edits, edit{start: off(ls.Pos()), end: off(ls.Pos()),
+					text: fmt.Sprintf("defer zzsimrt.S(%d, %d, 1); ", sid2, vid), prio: 1})
+				in.out.SPoints++
+			}
 		}
 		return true
 	}
